@@ -230,7 +230,7 @@ def check_whole(case):
 
 # ------------------------------------------------------------------ domain C: change, THEN notification
 # only what the statement lists: log records and measurement values (attachments / dut_id are not promised a notification)
-ORDERED_STEPS = ['log-info', 'measure', 'log-framework', 'measure-dim', 'log-plug', 'measure-dim-2']
+ORDERED_STEPS = ['log-info', 'measure', 'log-framework', 'measure-dim', 'log-plug', 'measure-dim-2', 'measure-pair', 'measure-dim-pair']
 _ORD = {'ready': False}
 
 
@@ -259,6 +259,12 @@ def ordered_case():
         return ('marker %s' % step) in logs_
       if step == 'measure':
         return (rp.get('measurements') or {}).get('m', {}).get('measured_value') == 7
+      if step == 'measure-pair':    # two updates back to back: the second finds the first still pending
+        ms_ = rp.get('measurements') or {}
+        return ms_.get('m2', {}).get('measured_value') == 1 and ms_.get('m3', {}).get('measured_value') == 2
+      if step == 'measure-dim-pair':
+        got = (rp.get('measurements') or {}).get('d', {}).get('measured_value')
+        return got is not None and [list(x) for x in got] == [[1, 10], [2, 20], [3, 30], [4, 40]]
       if step.startswith('measure-dim'):
         want = [[1, 10]] if step == 'measure-dim' else [[1, 10], [2, 20]]
         got = (rp.get('measurements') or {}).get('d', {}).get('measured_value')
@@ -266,7 +272,7 @@ def ordered_case():
       raise ValueError(step)
 
     @htf.plug(p=P)
-    @htf.measures(htf.Measurement('m'), htf.Measurement('d').with_dimensions('x'))
+    @htf.measures(htf.Measurement('m'), htf.Measurement('m2'), htf.Measurement('m3'), htf.Measurement('d').with_dimensions('x'))
     def body(test, p):
       started.set()
       s.sleep(1.0)
@@ -283,6 +289,12 @@ def ordered_case():
           test.measurements.d[1] = 10
         elif step == 'measure-dim-2':
           test.measurements.d[2] = 20
+        elif step == 'measure-pair':
+          test.measurements.m2 = 1
+          test.measurements.m3 = 2
+        elif step == 'measure-dim-pair':
+          test.measurements.d[3] = 30
+          test.measurements.d[4] = 40
         s.sleep(1.0)       # quiescence: the watcher runs until it waits on a fresh event
         view = latest['view']
         if view is None or not view_has(step, view):
